@@ -23,7 +23,11 @@ Perm(T) == [act : Actions, typ : T, org : Ids, id : Ids]
 
 SeqsUpTo(S, n) == {SetToSeq(X) : X \in UNION {kSubset(k, S) : k \in 0..n}}
 
-Expected(l, r) == [allowed |-> AllowedSeq(l, r)]
+\* allowed: what the transcribed code answers (implementation layer)
+\* may / must: the contract's bounds - the statement's necessary condition, and the converse on the unambiguous forms
+Expected(l, r) == [allowed |-> AllowedSeq(l, r),
+                   may     |-> \E i \in 1..Len(l) : GrantAllowed(l[i], r),
+                   must    |-> \E i \in 1..Len(l) : MustGrant(l[i], r)]
 
 Init ==
   /\ \/ /\ Mode = "pair"
@@ -39,9 +43,10 @@ Spec == Init /\ [][Next]_vars
 
 \* ------------------------------------------------------------------ checked on the specification
 \* the statement's "only if"
-OnlyIfNamed == exp.allowed => \E i \in 1..Len(ps) : GrantAllowed(ps[i], req)
+OnlyIfNamed == exp.allowed => exp.may
 \* converse on the unambiguous forms
-UnambiguousGrantsHold == (\E i \in 1..Len(ps) : MustGrant(ps[i], req)) => exp.allowed
+UnambiguousGrantsHold == exp.must => exp.allowed
+BoundsConsistent == exp.must => exp.may
 \* "read never implies write" (nor write read): every granting permission has the request's action
 ReadNeverImpliesWrite == exp.allowed => \E i \in 1..Len(ps) : ps[i].act = req.act /\ Matches(ps[i], req)
 ActionsNeverMix == \A i \in 1..Len(ps) : ps[i].act # req.act => ~Matches(ps[i], req)
